@@ -352,6 +352,14 @@ impl<V: Debug + Clone> TrieNode<V> {
                                 remove_result = RemoveResult::Ok;
                             }
                         }
+                        // An emptied regex subtree must be pruned like an
+                        // emptied child: left in place it would still
+                        // capture the segment at lookup and hide every
+                        // regex registered after it.
+                        if remove_result == RemoveResult::Ok {
+                            self.regexps
+                                .retain(|(r, node)| r.as_str() != anchored_s || !node.is_empty());
+                        }
                         return remove_result;
                     } else {
                         let len = self.regexps.len();
